@@ -364,29 +364,44 @@ def r6_totals(ctx):
             p = path_of(s.targets[0])
             if p in ('self.st_count_orig', 'self.st_count_recv', 'self.ack_code'):
                 src.setdefault(p[5:], []).append(s.value)
-    ok = any('GE01' in norm(v) for v in src.get('st_count_orig', []))
+    def _reaches_ge01(v, depth=0):
+        if 'GE01' in norm(v, 400):
+            return True
+        if depth > 3:
+            return False
+        for x in ast.walk(v):
+            if isinstance(x, ast.Name):
+                for s2 in ast.walk(f):
+                    if isinstance(s2, ast.Assign) and any(path_of(t) == x.id for t in s2.targets) and _reaches_ge01(s2.value, depth + 1):
+                        return True
+        return False
+    ok = any(_reaches_ge01(v) for v in src.get('st_count_orig', []))
     yield Ob('error_handler:err_gs.close st_count_orig comes from GE01', ok, ctx.floc(f), '' if ok else 'sources %s' % [norm(v) for v in src.get('st_count_orig', [])])
     ok = [norm(v) for v in src.get('st_count_recv', [])] == ['src.st_count']
     yield Ob('error_handler:err_gs.close st_count_recv comes from the reader\'s st_count', ok, ctx.floc(f), '' if ok else 'sources %s' % [norm(v) for v in src.get('st_count_recv', [])])
     ok = [norm(v) for v in src.get('ack_code', [])] == ['self._get_ack_code()']
     yield Ob('error_handler:err_gs.close ack_code comes from _get_ack_code()', ok, ctx.floc(f), '' if ok else 'changed')
     f = ctx.func('error_handler', 'err_gs.count_failed_st')
-    ok = any(isinstance(n, ast.For) and norm(n.iter) == 'self.children' for n in ast.walk(f)) and 'ack_code' in ast.unparse(f)
+    ok = any(isinstance(n, (ast.For, ast.comprehension)) and norm(n.iter) == 'self.children' for n in ast.walk(f)) and 'ack_code' in ast.unparse(f)
     require_idiom(ok, 'c05.py:360')
     yield Ob('error_handler:err_gs.count_failed_st counts children by ack_code', ok, ctx.floc(f), '' if ok else 'changed')
     # err_st.close: ack 'A' exactly when err_count() == 0
     f = ctx.func('error_handler', 'err_st.close')
-    okc = False
-    for n in ast.walk(f):
-        if isinstance(n, ast.If) and 'err_count()' in norm(n.test):
-            try:
-                z = bool(A.ev(n.test, {'self.err_count()': 0}))
-                nz = bool(A.ev(n.test, {'self.err_count()': 3}))
-                a0 = [A.const(s.value) for s in (n.body if z else n.orelse) if isinstance(s, ast.Assign) and path_of(s.targets[0]) == 'self.ack_code']
-                a1 = [A.const(s.value) for s in (n.body if nz else n.orelse) if isinstance(s, ast.Assign) and path_of(s.targets[0]) == 'self.ack_code']
-                okc = z != nz and a0 == ['A'] and a1 == ['R']
-            except A.NotClosed:
-                pass
+    from ..absint import explore
+    g_ = ctx.cfg(f)
+
+    def _ack_for(k):
+        outs = set()
+
+        def on_node(nd, env):
+            if nd is g_.exit:
+                outs.add(env.get('self.ack_code', '?'))
+        try:
+            explore(g_, {}, funcs={'self.err_count': lambda: k}, on_node=on_node)
+        except RuntimeError as e:
+            raise AnalysisError('err_st.close: %s' % e)
+        return outs
+    okc = _ack_for(0) == {'A'} and _ack_for(3) == {'R'} and _ack_for(1) == {'R'}
     yield Ob('error_handler:err_st.close accepts the set exactly when it has no error', okc, ctx.floc(f), '' if okc else 'ack code assignment changed')
     f = ctx.func('error_handler', 'err_gs._get_ack_code')
     rets = [A.const(n.value) for n in ast.walk(f) if isinstance(n, ast.Return)]
@@ -471,6 +486,44 @@ def r9_reader_errors_before_close(ctx):
                                 'and says accepted while an error is itemised' if after else 'no handle_errors(src.pop_errors()) before the close in this branch'))
 
 
+def r10_element_position(ctx):
+    """an element error is itemised "at the right element position": the first element of AK4/IK4 is built from the
+    element, component and repetition position of the error node, each in its own place.  The expressions written
+    there are evaluated with three distinct positions (6, 2, 3)."""
+    env = {'err_ele.ele_pos': 6, 'err_ele.subele_pos': 2, 'err_ele.repeat_pos': 3}
+    for mod, cname, segid in (('error_997', 'error_997_visitor', 'AK4'), ('error_999', 'error_999_visitor', 'IK4')):
+        f = ctx.func(mod, cname + '.visit_ele')
+        n = 0
+        for c in A.calls_in(f):
+            r, m = A.call_target(c)
+            if m not in ('set', 'append') or not c.args:
+                continue
+            val = c.args[-1]
+            if not any((path_of(x) or '').startswith('err_ele.') and (path_of(x) or '').endswith('_pos') for x in ast.walk(val)):
+                continue
+            n += 1
+            try:
+                got = A.ev(val, env)
+            except (A.NotClosed, TypeError) as e:
+                raise AnalysisError('%s.visit_ele: position expression not closed: %s' % (cname, norm(val)))
+            st = A.enclosing(c, (ast.stmt,))
+            conds = A.path_condition(st, f)
+            if m == 'set':
+                rd = A.const(c.args[0]) or ''
+                comp = rd.split('-')[1] if '-' in rd else '1'
+                want = {'1': '6', '2': '2', '3': '3'}.get(comp)
+                where = 'component %s of %s01' % (comp, segid)
+            else:
+                has_sub = any(pol and 'subele_pos' in norm(t) for t, pol in conds)
+                want = '6:2' if has_sub else '6'
+                where = '%s01 (%s a component position)' % (segid, 'with' if has_sub else 'without')
+            ok = str(got) == want
+            yield Ob('%s:%s.visit_ele %s carries its own position' % (mod, cname, where), ok, ctx.floc(f, c),
+                     '' if ok else 'for element 6, component 2, repetition 3 the expression `%s` writes %r, expected %r' % (norm(val), got, want))
+        if n < 2:
+            raise AnalysisError('%s.visit_ele: position expressions not found' % cname)
+
+
 RULES = [
     Rule('C05.R1', 'verdict True only through valid and error-count-zero edges; other exits False', r1_verdict, floor=3),
     Rule('C05.R2', 'sibling "has errors" deciders consult every stored evidence field', r2_evidence, floor=6),
@@ -481,4 +534,5 @@ RULES = [
     Rule('C05.R7', 'error sinks record or fail loudly; add_error arity agrees across current-node classes', r7_sinks_do_not_swallow, floor=6),
     Rule('C05.R8', 'shared with C04.R1: the received-set count the acknowledgement reports is the reader\'s, counted unconditionally', r8_shared_reader_counts, floor=37),
     Rule('C05.R9', 'reader errors are handed to the error tree before the loop they concern is closed', r9_reader_errors_before_close, floor=3),
+    Rule('C05.R10', 'AK401/IK401 carry element, component and repetition position each in its own place', r10_element_position, floor=4),
 ]
